@@ -164,7 +164,7 @@ class _FakeResponse:
             raise aiohttp.ClientResponseError(None, (), status=400, message='by contract')
 
 
-@harness('N1', targets='kopf._cogs.clients.errors.check_response', props=['C12'],
+@harness('N1', targets='kopf._cogs.clients.errors.check_response', props=['C12', 'C19'],
          clauses=['ok_passes', 'status_table', 'body_errors_contained', 'carries_status_headers_details',
                   'payload_handling'],
          canaries=['canary.never_raises', 'canary.always_raises'],
@@ -535,7 +535,7 @@ def _new_exc(cls, *args):
     return e
 
 
-@harness('N2', targets='kopf._cogs.clients.api.request', props=['C12'],
+@harness('N2', targets='kopf._cogs.clients.api.request', props=['C12', 'C19', 'C13', 'C03'],
          clauses=['retried_kinds', 'attempts_bounded', 'sleep_is_backoff', 'never_less_than_retry_after', 'retry_after_policy',
                   'escalates_at_once', 'session_closed_reauth', 'success_returns_response', 'same_request',
                   'url_resolved_against_server', 'timeout_explicit_or_configured',
